@@ -15,7 +15,7 @@ SPEC = {
         ("match(extension: prefix test, re-activation of the last old column, missing columns created, every observation re-visited, trace replaced, round counter incremented once)", 'match', r'^(extend:|expand:|init:|loop:(runs-over|new-column|no-pruning)|BaseMatcher.match::loop)'),
         ("LatticeColumn.set_delayed(re-activation gives EVERY entry of the column the new round, whatever its old one: nested foreach)", 'set_delayed', '^reactivate:')],
     'bounded': [
-        ('incremental-vs-one-shot', suites.case_C08, 1500, 25000, RULE + '; ' + 'non-trivial = first cut inside the matched prefix; 1-2 cuts', '')],
+        ('incremental-vs-one-shot', suites.case_C08, 1500, 200000, RULE + '; ' + 'non-trivial = first cut inside the matched prefix; 1-2 cuts', '')],
 }
 
 
